@@ -70,6 +70,29 @@ def gen_cases(rng, tier):
             ev = [[0, ["set", k, 1, 4, [t], "set"]], [2, ["set", k, 5, 1600, [t], "set"]], [6, ["set", other, 5, 0, [], "set"]]]
         ev.append([rng.choice([0, 2]), ["dtags", t if rng.random() < 0.7 else rng.sample([x for x in ALLTAGS if x != t], rng.randint(1, 2)) + [t]]])
         cases.append({"keys": KEYS, "events": ev})
+    # lazily expired keys: some keys are only WATCHED between the commands (raw store, no read that would purge them), so they stay
+    # in the store past their deadline until a command meets them
+    for i, c in enumerate(list(cases)):
+        if i % 3 == 0:
+            cases.append({"keys": c["keys"], "events": c["events"], "unprobed": [KEYS[i % len(KEYS)]] + ([KEYS[(i // 2) % len(KEYS)]] if i % 2 else [])})
+    for k, other, t in (("a:1", "a:2", "ta"), ("a:2", "a:1", "ta"), ("b:1", "a:1", "g:1")):
+        for rm in ("del", "delp", "incr", "set", "dtags"):
+            for gap in (8, 2):
+                ev = [[0, ["set", k, 1, 4, [t], "set"]], [0, ["set", other, 2, 1600, [x for x in TAGS_FOR[other] if x == t], "set"]],
+                      [gap, ["set", "c", 1, 0, [], "set"]]]
+                if rm == "del": ev.append([0, ["del", k]])
+                elif rm == "delp": ev.append([0, ["delp", k[:2]]])
+                elif rm == "incr": ev.append([0, ["incr", k, 0, [], 1]])
+                elif rm == "dtags": ev.append([0, ["dtags", "u"]])
+                ev += [[0, ["set", k, 5, 0, [], "set"]], [0, ["dtags", t]]]
+                for unp in ([k], [k, other], []):
+                    cases.append({"keys": KEYS, "events": ev, "unprobed": unp})
+    # the plain decorator as the writer (value or cached exception, positional or keyword call), then delete_tags of its templated tag
+    for k in [x for x in KEYS if x.startswith("b:")]:
+        for first in (0, 1, 2, 3, 4, 5):
+            for life in (4, 1600):
+                cases.append({"keys": KEYS, "events": [[first, ["set", k, 5, life, ["g:" + k[2:]], "decor"]], [0, ["set", "c", 1, 0, [], "set"]],
+                                                       [2, ["dtags", "g:" + k[2:]]]]})
     for nmem in ([101, 150] if tier == "quick" else [100, 101, 150, 199, 200, 201, 250]):
         keys = ["a:%d" % i for i in range(nmem)] + ["c"]
         ev = [[0, ["set", k, 1, 0, ["ta"] if k != "c" else [], "set"]] for k in keys] + [[0, ["dtags", "ta"]]]
@@ -83,7 +106,7 @@ def run_impl(case):
     async def go():
         from cashews import Cache
         cache = Cache()
-        cache.setup("mem://?check_interval=0&size=100000")
+        mem = cache.setup("mem://?check_interval=0&size=100000")
         await cache.init()
         cache.register_tag("ta", "a:{x}")
         cache.register_tag("ta", "c")
@@ -92,8 +115,24 @@ def run_impl(case):
         async def fb(x, value=None, life=None):
             return value
 
+        from cashews import with_exceptions
+
+        class Boom(Exception):
+            pass
+
+        @cache(ttl=lambda x, value=None, life=None, result=None: life, key="b:{x}", tags=["g:{x}"], condition=with_exceptions(Boom))
+        async def fbx(x, value=None, life=None):
+            raise Boom(value)      # the raised exception is what gets stored - under the same key, with the same tags
+
+        unprobed = set(case.get("unprobed", ()))
+
+        def watched(k):
+            e = mem.store.get(k)
+            return e is not None and (e[0] is None or e[0] > vclock.Clock.now)
+
         async def probe():
-            return [bool(await cache.exists(k)) for k in keys]
+            # a key that is only watched is never read (a read would purge it once expired); what a read WOULD answer is taken from the raw store
+            return [watched(k) if k in unprobed else bool(await cache.exists(k)) for k in keys]
         steps = []
         await asyncio.sleep(TICK)
         for adv, e in case["events"]:
@@ -105,7 +144,12 @@ def run_impl(case):
                 if op == "set":
                     _, k, v, ttl, tags, via = e
                     if via == "decor" and not await cache.exists(k):
-                        if (t + len(case["events"])) % 2:      # the templated field is passed positionally or by keyword: same key, same tag
+                        if t % 3 == 0:
+                            try:
+                                await fbx(k[2:], value=v, life=ttl * TICK)
+                            except Boom:
+                                pass
+                        elif (t + len(case["events"])) % 2:      # the templated field is passed positionally or by keyword: same key, same tag
                             await fb(k[2:], value=v, life=ttl * TICK)      # the decorator stores (key b:<x>, tags [g:<x>])
                         else:
                             await fb(x=k[2:], value=v, life=ttl * TICK)
@@ -141,6 +185,8 @@ def to_coq(case, obs):
         else: ev = C("ManyTags", [S(x) for x in e[1]])
         h.append((Z(t), ev))
         o.append((list(before), list(after)))
+    if case.get("unprobed") is not None:
+        return C("CTagsLazy", reg, [S(k) for k in case["keys"] if k not in case["unprobed"]], [S(k) for k in case["keys"]], h, o)
     return C("CTags", reg, [S(k) for k in case["keys"]], h, o)
 
 
